@@ -33,16 +33,13 @@ pub fn calc_witness<I: IntoIterator<Item = (String, Vec<Fr>)>>(
 }
 
 fn get_inputs_size(nodes: &[Node]) -> usize {
-    let mut start = false;
+    // Input nodes are not required to form one contiguous run: scan the whole graph
     let mut max_index = 0usize;
     for &node in nodes.iter() {
         if let Node::Input(i) = node {
             if i > max_index {
                 max_index = i;
             }
-            start = true
-        } else if start {
-            break;
         }
     }
     max_index + 1
